@@ -276,6 +276,6 @@ def runTol (c : Case) : Res :=
       let g := Q.ofDy got
       let rel : Q := ⟨1, 10 ^ 9⟩
       if Q.le (Q.abs (g - want)) (rel * want) then { status := "ok", stats := stats }
-      else { status := "ORACLE", detail := s!"adaptive_tolerance = {repr g} but base + 1e-12·‖A‖∞ = {repr want} (constant-one last column excluded: {lastOnes})", stats := stats }
+      else { status := "ORACLE", detail := s!"adaptive_tolerance = {qShow g} but base + 1e-12·‖A‖∞ = {qShow want} (constant-one last column excluded: {lastOnes})", stats := stats }
     | none => { status := "ORACLE", detail := s!"adaptive_tolerance returned {c.ob1 "tol"}", stats := stats }
   | _, _ => { status := "skip", detail := "non-finite" }
